@@ -243,9 +243,12 @@ func TestTamperEveryClass(t *testing.T) {
 		if len(what) > 1500 {
 			what = what[:1500] + " ..."
 		}
-		vlib.Known(id, len(hits[id]) > 0, fmt.Sprintf("shard observation: %d of %d enumerated (site class, operator) placements make Verify panic with a nil dereference "+
-			"(null / map-drop mutants of and^n(or^m(..)) and or^n(andc(..)) shapes are NOT executed: there the dereference happens in an errgroup goroutine and kills the process; they are counted under excluded_known): %s",
-			len(hits[id]), sites, what))
+		note := "make the typed decoding of the proof panic (before any verification)"
+		if id == knownNilComponent {
+			note = "make Verify panic with a nil dereference (null / map-drop mutants of and^n(or^m(..)) and or^n(andc(..)) shapes are NOT executed: " +
+				"there the dereference happens in an errgroup goroutine and kills the process; they are counted under excluded_known)"
+		}
+		vlib.Known(id, len(hits[id]) > 0, fmt.Sprintf("shard observation: %d of %d enumerated (site class, operator) placements %s: %s", len(hits[id]), sites, note, what))
 	}
 	vlib.Exhaustive("one proof per (15 protocol / composition kinds x 3 compilers) (every site class x 12 deterministic operator variants) and per (nthroot, prm, cggmp21 enc / fac / blummod x Fiat-Shamir: every site class x 6 structural variants)")
 }
